@@ -16,8 +16,8 @@ Grammar (everything else is refused)
                | self.pop(e) | self.chapters[k].record(**d) | self.functions[k] = e | self.fields.append(e)
                | if/elif/else (a branch may end in return only if the statement then is the last of its block or the
                  whole branch returns) | isinstance(x, dict) / isinstance(key, slice) as the test of an if (narrowing)
-               | for x in <list> | for k, v in list(<dict>.items()) | for k, f in self.functions.items()
-               | for c in self.chapters.values()
+               | for x in <list> | for k, v in list(<dict>.items()) | for k, v in <dict>.items() (body must not change
+                 that dict) | for k, f in self.functions.items() | for c in self.chapters.values()
                | for s in self.values() | for k, s in self.items()   (body of a loop over sub-objects: method calls on the
                  loop variable and assignments to locals only) | return e
                no while / break / continue / try / with / nested def / lambda / global
@@ -798,8 +798,8 @@ class FnTr(object):
         binds = []
         itx, et = self.iterable(it, env, binds)
         # a loop over the items of a local dict must not change that dict unless it iterates a copy (list(..))
-        if is_method(it, "items", 0) and isinstance(it.func.value, ast.Name):
-            refuse(s, "for loop over a live view of a local dict (only over a snapshot: list(d.items()))")
+        if is_method(it, "items", 0) and isinstance(it.func.value, ast.Name) and it.func.value.id in acc:
+            refuse(s, "loop over a live view of a dict that its body changes")
         p, env2 = self.target(s.target, et, env)
         for x in (n.id for n in ast.walk(s.target) if isinstance(n, ast.Name)):
             if x in env:
